@@ -261,3 +261,6 @@
 mod pipeline;
 
 pub use pipeline::{MultiTemplate, SectionInfo, SectionType, Template};
+
+#[cfg(feature = "verif-hooks")]
+pub use pipeline::verif_hooks;
